@@ -262,14 +262,22 @@ def combos(thorough, seed):
     sub = full if thorough else full[(seed % 3)::3]
     for a in sub:
         for b in red:
-            out.append(((a, b), 0.3, False))
-            out.append(((b, a), 1.0, False))
+            if thorough:
+                for cfl in cfls:
+                    for fh in (False, True):
+                        out.append(((a, b), cfl, fh))
+                        out.append(((b, a), cfl, fh))
+            else:
+                out.append(((a, b), 0.3, False))
+                out.append(((b, a), 1.0, False))
     # three arrays from the reduced menu
     r3 = red if thorough else red[::2]
     for a in r3:
         for b in red:
             for c in r3:
                 out.append(((a, b, c), 0.3, False))
+                if thorough:
+                    out.append(((a, b, c), 1.0, True))
     return out
 
 
@@ -300,7 +308,8 @@ def run(ctx):
                     'dt_adapt) x 0-2 real particles x 6 value profiles x 3 '
                     'smoothing lengths x optional ghost with extreme values '
                     'x cfl {0.3,1} x fixed_h; pairs: full x reduced menu in '
-                    'both orders; triples from the reduced menu; '
+                    'both orders (thorough: x cfl x fixed_h); triples from the '
+                    'reduced menu; '
                     'non-trivial = distinct (expected step, deciding rule)')
     assumptions = ['h.minimum is refreshed with update_min_max() before each '
                    'query, as NNPS.update_domain() does every step',
